@@ -738,9 +738,13 @@ func mptKind() *kindT {
 	}
 	k.sizes = func(v any) map[string]int {
 		// Size() is the size of the node's own encoding WITHOUT the type byte
-		return map[string]int{"Size+1": nd(v).Size() + 1}
+		m := map[string]int{"Size+1": nd(v).Size() + 1}
+		if nd(v).Type() != mpt.EmptyT {
+			m["len(Bytes)"] = len(nd(v).Bytes())
+		}
+		return m
 	}
-	k.enc = func(v any) ([]byte, error) { return bytes.Clone(nd(v).Bytes()), nil }
+	k.enc = func(v any) ([]byte, error) { return encode(&mpt.NodeObject{Node: nd(v)}) }
 	k.jenc = func(v any) ([]byte, error) { return json.Marshal(nd(v)) }
 	k.jdec = func(raw []byte, _ any) (any, error) {
 		var n mpt.NodeObject
